@@ -65,21 +65,26 @@ def read():
                 raise TranslationError("get_rewards: fallback is not the parameter default")
             default = ast.unparse([dflt for a, dflt in zip(fn.args.args[-len(fn.args.defaults):], fn.args.defaults) if a.arg == default][0])
         ret = [s for s in ast.walk(fn) if isinstance(s, ast.Return)]
-        out.append((g, path, conv, default, sorted(excs), ast.unparse(ret[-1].value) if ret else ""))
+        rexp = ast.unparse(ret[-1].value) if ret else ""
+        # the returned expression with the local variable's name abstracted away: "x" or "bool(x)" (anything else is kept verbatim)
+        base = target.split("[")[0]
+        if rexp in (target, base):
+            rexp = "x"
+        elif rexp in (f"bool({target})", f"bool({base})"):
+            rexp = "bool(x)"
+        out.append((g, path, conv, default, sorted(excs), rexp))
     # start-up glue: which settings start_tasks reads, and into what
     csrc, ctree = parse("AIDojoCoordinator/coordinator.py")
     gc = find_class(ctree, "GameCoordinator")
     st = find_func(gc, "start_tasks")
-    glue = []
-    for n in ast.walk(st):
-        if isinstance(n, ast.Assign) and len(n.targets) == 1:
-            v = ast.unparse(n.value)
-            if "self.task_config.get_" in v:
-                glue.append((ast.unparse(n.targets[0]), v))
-        if isinstance(n, ast.If) and "self.task_config.get_" in ast.unparse(n.test):
-            glue.append(("if", ast.unparse(n.test)))
-    ms = ast.unparse(find_func(gc, "_get_max_steps_per_role").body[-2]) if len(find_func(gc, "_get_max_steps_per_role").body) >= 2 else ""
-    glue.append(("_get_max_steps_per_role", ms))
+    # which settings the start-up code reads (names of the getters called on self.task_config in start_tasks and in the
+    # per-role step-limit helper it uses); how the values are stored is decided by the correspondence, not here
+    import re
+    glue = set()
+    for fn_name in ("start_tasks", "_get_max_steps_per_role"):
+        for n in ast.walk(find_func(gc, fn_name)):
+            if isinstance(n, ast.Call) and isinstance(n.func, ast.Attribute) and ast.unparse(n.func.value) == "self.task_config" and n.func.attr in GETTERS:
+                glue.add((fn_name, n.func.attr))
     return out, sorted(glue)
 
 
